@@ -125,10 +125,10 @@ func optsFor(prop string, tier string, i int, r *rng.Rand) GenOpts {
 
 func kindOf(prop string) string {
 	switch prop {
-	case "C01", "C02", "C03":
+	case "C01", "C03":
 		return "sync"
 	}
-	return prop // C05 (checkpointed), C35 (shutdown), C34 (double crash), C04 (power loss) have their own sets
+	return prop // C02 adds crashes inside the recovery to the prefixes of the run; C05 (checkpointed), C35 (shutdown), C34 (double crash), C04 (power loss) have their own sets
 }
 
 func maxPrefixes(tier string) int {
@@ -171,8 +171,8 @@ func exploreHistory(h History, dir string, tier string, workers int, kind string
 		ex.Ks = []int{len(ex.Ops)} // only the final image matters (all prefixes are C01-C03's business)
 	}
 	obs := Explore(&h, d, ex.Ops, ex.Ks, filepath.Join(dir, "img"), workers)
-	if kind == "C34" {
-		ex.Double = ExploreDouble(&h, d, ex.Ops, root, filepath.Join(dir, "dbl"), tier)
+	if kind == "C34" || kind == "C02" {
+		ex.Double = ExploreDouble(&h, d, ex.Ops, root, filepath.Join(dir, "dbl"), tier, kind)
 	}
 	if kind == "C04" {
 		ex.PL = ExplorePL(&h, d, ex.Ops, filepath.Join(dir, "pl"), tier)
@@ -348,7 +348,7 @@ func DriverMain(prop string, args []string) int {
 			l.Err += " decode: " + strings.Join(d.Errs[:min(3, len(d.Errs))], "; ")
 		}
 		double := "[]"
-		if prop == "C34" {
+		if prop == "C34" || prop == "C02" {
 			var dfails []FailRow
 			var clen2 []ClenEnt
 			var derrs []string
